@@ -37,11 +37,7 @@ Theorem C16_size_budget_default :
   load_archive_files max_decompressed_chart_size max_decompressed_file_size s = inr fs ->
   Forall (fun f => slen (f_data f) <= max_decompressed_file_size) fs /\
   fold_right Z.add 0 (map (fun f => slen (f_data f)) fs) < max_decompressed_chart_size.
-Proof.
-  exact (fun s fs H1 H2 =>
-    let H := size_budget max_decompressed_chart_size max_decompressed_file_size s fs H1 H2 in
-    conj (proj1 H) (proj1 (proj2 H))).
-Qed.
+Proof. exact size_budget_default. Qed.
 Print Assumptions C16_size_budget_default.
 
 (* whether or not the archive is accepted: no single read exceeds min(declared, remaining)
